@@ -547,6 +547,30 @@ Definition check_request (d : swap_data) : M (option bool) :=   (* Some true: ne
   else if w_peer_suspicious w then ret (Some false)
   else ret (Some true).
 
+(* the actions that do not wrap another action, by Go type name *)
+Definition leaf_actions : list (string * (swap_data -> M (string * swap_data))) :=
+  [ ("CreateSwapRequestAction", act_create_swap_request);
+    ("SendMessageAction", act_send_message);
+    ("SendMessageWithRetryAction", act_send_message_retry);
+    ("SendCancelAction", act_send_cancel);
+    ("TakerSendPrivkeyAction", act_taker_send_privkey);
+    ("SwapInReceiverInitAction", act_swap_in_receiver_init);
+    ("CreateSwapOutFromRequestAction", act_create_swap_out_from_request);
+    ("CreateAndBroadcastOpeningTransaction", act_create_and_broadcast_opening);
+    ("AwaitPaymentOrCsvAction", act_await_payment_or_csv);
+    ("AwaitFeeInvoicePayment", act_await_fee_invoice_payment);
+    ("AwaitCsvAction", watch_csv tc);
+    ("ClaimSwapTransactionWithPreimageAction", act_claim_preimage);
+    ("ClaimSwapTransactionWithCsv", act_claim_csv);
+    ("ClaimSwapTransactionCoop", act_claim_coop);
+    ("PayFeeInvoiceAction", act_pay_fee_invoice);
+    ("AwaitTxConfirmationAction", act_await_tx_confirmation);
+    ("ValidateTxAndPayClaimInvoiceAction", act_validate_and_pay);
+    ("SetStartingBlockHeightAction", act_set_starting_height);
+    ("NoOpAction", fun d => ret (Ev_NoOp, d));
+    ("NoOpDoneAction", fun d => emit ERetransStop ;;; ret (Ev_Done, d));
+    ("CancelAction", fun d => ret (Ev_Done, d)) ]%string.
+
 Fixpoint exec (fuel : nat) (a : action_tree) (d : swap_data) : M (string * swap_data) :=
   match fuel with
   | O => ret (Ev_Unknown, d)
@@ -575,28 +599,11 @@ Fixpoint exec (fuel : nat) (a : action_tree) (d : swap_data) : M (string * swap_
       end
     else if String.eqb name "AddSuspiciousPeerAction" then
       _ok <- pop_addsusp ;; emit (ESuspicious (d_peer d)) ;;; next d
-    else if String.eqb name "CreateSwapRequestAction" then act_create_swap_request d
-    else if String.eqb name "SendMessageAction" then act_send_message d
-    else if String.eqb name "SendMessageWithRetryAction" then act_send_message_retry d
-    else if String.eqb name "SendCancelAction" then act_send_cancel d
-    else if String.eqb name "TakerSendPrivkeyAction" then act_taker_send_privkey d
-    else if String.eqb name "SwapInReceiverInitAction" then act_swap_in_receiver_init d
-    else if String.eqb name "CreateSwapOutFromRequestAction" then act_create_swap_out_from_request d
-    else if String.eqb name "CreateAndBroadcastOpeningTransaction" then act_create_and_broadcast_opening d
-    else if String.eqb name "AwaitPaymentOrCsvAction" then act_await_payment_or_csv d
-    else if String.eqb name "AwaitFeeInvoicePayment" then act_await_fee_invoice_payment d
-    else if String.eqb name "AwaitCsvAction" then watch_csv tc d
-    else if String.eqb name "ClaimSwapTransactionWithPreimageAction" then act_claim_preimage d
-    else if String.eqb name "ClaimSwapTransactionWithCsv" then act_claim_csv d
-    else if String.eqb name "ClaimSwapTransactionCoop" then act_claim_coop d
-    else if String.eqb name "PayFeeInvoiceAction" then act_pay_fee_invoice d
-    else if String.eqb name "AwaitTxConfirmationAction" then act_await_tx_confirmation d
-    else if String.eqb name "ValidateTxAndPayClaimInvoiceAction" then act_validate_and_pay d
-    else if String.eqb name "SetStartingBlockHeightAction" then act_set_starting_height d
-    else if String.eqb name "NoOpAction" then ret (Ev_NoOp, d)
-    else if String.eqb name "NoOpDoneAction" then emit ERetransStop ;;; ret (Ev_Done, d)
-    else if String.eqb name "CancelAction" then ret (Ev_Done, d)
-    else ret (Ev_Unknown, d)
+    else
+      match assoc_str name leaf_actions with
+      | Some f => f d
+      | None => ret (Ev_Unknown, d)
+      end
   end.
 
 End Exec.
